@@ -132,14 +132,14 @@ def nsqdTopicProducers (w : World) (a : Action) : LookupRes :=
       (if nodeHasTopic w n then [(⟨false, .nsqd, n, "/info", ""⟩ : PReq)] else []))
   { reqs := reqs,
     allFailed := failCount w reqs == w.nsqdAddrs.length,
-    producers := w.nsqdAddrs.filter (nodeHasTopic w) }
+    producers := (w.nsqdAddrs.filter (nodeHasTopic w)).map (reportOf w) }
 
 def nsqdProducersOfNode (w : World) (a : Action) : LookupRes :=
   let reqs := (⟨false, .nsqd, a.node, "/info", ""⟩ : PReq) ::
     (if nodeUp w a.node then [(⟨false, .nsqd, a.node, "/stats", "format=json&include_clients=false"⟩ : PReq)] else [])
   { reqs := reqs,
     allFailed := failCount w reqs == 1,
-    producers := if nodeUp w a.node then [a.node] else [] }
+    producers := if nodeUp w a.node then [reportOf w a.node] else [] }
 
 def doLookup (w : World) (a : Action) : Lookup → LookupRes
   | .topicProducers => if !w.lookupds.isEmpty then lookupdTopicProducers w a else nsqdTopicProducers w a
